@@ -52,6 +52,24 @@ class C20(Check):
         # mappings made by concurrent tasks: every bus write of map_fmmu takes as long as the script says
         for _ in range(150 if self.tier == "quick" else 2000):
             out.append(self.conc_case(rng))
+        import random
+        rng = random.Random(self.seed + 20)      # its own stream: the cases above stay what they were
+        for _ in range(80 if self.tier == "quick" else 800):
+            # while mappings are alive the terminal is brought to a state again (a second sync group does that right after its own
+            # mapping) - with and without an error flag to acknowledge: the bookings of the live mappings stay what they are
+            n = rng.choice([1, 2, 3, 4, 4])
+            ops, live = [], 0
+            for i in range(rng.randint(2, 10)):
+                r = rng.random()
+                if r < 0.25:
+                    ops.append(("toop", rng.choice([2, 4, 8]), rng.choice([0x12, 0x14, 0x18, 0x11, 2, 4, 8, 1])))
+                elif live and r < 0.5:
+                    ops.append(("unmap", rng.randrange(live)))
+                    live -= 1
+                else:
+                    ops.append(("map", rng.random() < 0.5, rng.choice([0, 0x1000 * (i + 1) + rng.randrange(16)])))
+                    live += 1
+            out.append({"n": n, "ops": ops})
         return out
 
     @staticmethod
@@ -170,18 +188,32 @@ class C20(Check):
 
         writes = []
 
+        al = {"state": 2}
+
         class FakeEc:
             async def roundtrip(self, cmd, pos, offset, *args, data=None, idx=0):
                 writes.append((cmd.name, offset, args))
+                if offset == 0x130 and cmd.name == "FPRD":       # AL status (and status code) of a conformant terminal
+                    return (al["state"], 0)
+                if offset == 0x120 and cmd.name == "FPWR":
+                    al["state"] = args[1] & 15                    # the acknowledge (0x11) clears the error flag
                 return ()
 
+        if any(op[0] == "toop" for op in case["ops"]):
+            case["_mops"] = [op for op in case["ops"] if op[0] != "toop"]
+
         async def go():
+            from ebpfcat.ethercat import MachineState
             t = Terminal(FakeEc())
             t.position = 1001
             t.fmmu_used = [None] * case["n"]
             t.pdo_out_off, t.pdo_out_sz, t.pdo_in_off, t.pdo_in_sz = 0x1100, 4, 0x1180, 6
             live, res = [], []
             for op in case["ops"]:
+                if op[0] == "toop":
+                    al["state"] = op[2]
+                    await t.to_operational(MachineState(op[1]))
+                    continue
                 if op[0] == "map":
                     cm = t.map_fmmu(op[2], op[1])
                     writes.clear()
@@ -264,7 +296,8 @@ class C20(Check):
     def rule(self):
         return ("map(write/read)/unmap(k-th live) sequences of length 1-12 on terminals with 1-4 FMMUs (thorough: all sequences up to length 5 exhaustively); "
                 "plus scripts of up to 6 concurrent mapping tasks whose bus writes complete when the script says (a task starts while the configuration write "
-                "of another is outstanding, gives its mapping up while others start); non-trivial = at least two map operations; distinct by content")
+                "of another is outstanding, gives its mapping up while others start); plus sequences in which the terminal is brought to a state again (to_operational, "
+                "with and without an error flag to acknowledge) while mappings are alive; non-trivial = at least two map operations; distinct by content")
 
     def distribution(self, cases, observed):
         d = {"maps": 0, "unmaps": 0, "failed_maps": 0}
